@@ -226,30 +226,84 @@ class Scheduler:
 
 
 class Dfs:
-    """Systematic (stateless, replay-based) exploration of the interleavings of the synchronisation steps: a thread keeps
-    running until its next operation is a `with condition:` block or a wait (or it blocks / finishes); only there is the
-    next thread a decision, and so is the waiter a notify() wakes.  One object drives many runs: run() until done()."""
+    """Systematic (stateless, replay-based) exploration of interleavings.  One object drives many runs: run() until done().
 
-    def __init__(self, seed=0, budget=1000):
+    default mode — the orders of the synchronisation steps: a thread keeps running until its next operation is a
+    `with condition:` block, a wait or a file lock (or it blocks / finishes); only there is the next thread a decision,
+    and so is the waiter a notify() wakes.  Complete when the budget allows.
+
+    conflicts=True — preemption-bounded search (at most max_preempt switches away from a thread that could go on):
+    a thread may also be preempted just before an operation on a file, directory area or identifier
+    that another thread touches too (learned from the runs made so far; the first run has no preemption)."""
+
+    def __init__(self, seed=0, budget=1000, conflicts=False, max_preempt=2):
         import random as _r
         self.prefix, self.trace, self.runs, self.budget, self.complete = [], [], 0, budget, False
         self.perm = _r.Random(seed)
         self.orders = {}
+        self.conflicts, self.max_preempt = conflicts, max_preempt
+        self.seen = {}              # thread -> tokens it has touched in any run so far
+        self.preempts = 0
+        self.prev = {}
 
     def begin(self):
         self.trace = []
         self.runs += 1
+        self.preempts = 0
+        self.prev = {}
 
-    def _decide(self, options):
+    @staticmethod
+    def tokens(info):
+        out = set()
+        words = str(info).split()
+        for w in words[1:] if len(words) > 1 else []:
+            w = w.lstrip("X")
+            if not w:
+                continue
+            if ":" in w and not w.startswith("foreign"):
+                out.add(w)                                   # op:1, rp:2, ci:7, fl:R7, md:...
+            elif w[0] in "OPRMT" and (len(w) == 1 or w[1].isdigit() or w[1] in "#?omr"):
+                out.add(w[0] + "*" if len(w) == 1 else w.split("#")[0])
+            elif w in ("objects", "refs", "metadata", "<root>"):
+                out |= {"objects": {"O*"}, "refs": {"P*", "R*"}, "metadata": {"M*"}, "<root>": {"O*", "P*", "R*", "M*"}}[w]
+        if words and words[0] == "listdir":
+            out.add("M*")
+        return out
+
+    @staticmethod
+    def _clash(t, u):
+        return t == u or (t.endswith("*") and u[0] == t[0]) or (u.endswith("*") and t[0] == u[0])
+
+    def interesting(self, i, info):
+        ts = self.tokens(info)
+        if not ts:
+            return False
+        for j, seen in self.seen.items():
+            if j != i and any(self._clash(t, u) for t in ts for u in seen):
+                return True
+        return False
+
+    def observe(self, sch):
+        for i, info in sch.steps:
+            t = self.tokens(info)
+            have = self.seen.setdefault(i, set())
+            if not t <= have:
+                have |= t
+                self.grew = True
+
+    def _decide(self, options, first=None):
         k = len(self.trace)
         n = len(options)
         if n == 1:
             return options[0]
         # a fixed random order per (depth, option set): no bias towards low thread indices, still exhaustive
-        key = (k, tuple(options))
+        key = (k, tuple(options), first)
         if key not in self.orders:
             o = list(options)
             self.perm.shuffle(o)
+            if first is not None and first in o:
+                o.remove(first)
+                o.insert(0, first)
             self.orders[key] = o
         order = self.orders[key]
         c = self.prefix[k] if k < len(self.prefix) else 0
@@ -259,9 +313,26 @@ class Dfs:
         return order[c]
 
     def pick_thread(self, sch, en, last):
-        if last is not None and last in en and not str(sch.info[last]).startswith(("cond:", "wait:", "flock")):
-            return last
-        return self._decide(sorted(en))
+        if last is not None and last in en:
+            info = str(sch.info[last])
+            sync = info.startswith(("cond:", "wait:", "flock"))
+            if not self.conflicts:
+                return self._decide(sorted(en)) if sync else last
+            # just before a conflicting operation is enough: stopping after one equals stopping before the thread's next
+            # conflicting operation, what lies between commutes with the other threads
+            point = sync or self.interesting(last, info)
+            self.prev[last] = info
+            if not point or self.preempts >= self.max_preempt:
+                return last
+            i = self._decide(sorted(en), first=last)
+            if i != last:
+                self.preempts += 1
+            else:
+                self.prev[last] = info
+            return i
+        i = self._decide(sorted(en))
+        self.prev[i] = str(sch.info[i])
+        return i
 
     def choice(self, waiters):          # stands in for rng.choice in CondStandIn.notify
         return self._decide(list(waiters))
@@ -271,6 +342,11 @@ class Dfs:
 
     def done(self):
         """prepare the next run; True when the tree is exhausted or the budget is spent"""
+        if self.conflicts and getattr(self, "grew", False):
+            # the set of preemption points has changed: positions of the recorded trace no longer mean the same; start the walk again
+            self.grew = False
+            self.prefix = []
+            return self.runs >= self.budget
         t = self.trace
         while t and t[-1][1] + 1 >= t[-1][0]:
             t = t[:-1]
@@ -348,6 +424,8 @@ def run_schedule(u, setup, calls, schedule=None, rng=None, mode="th", pids=None,
             # let unfinished threads go so that nothing is left hanging
             if not sch.finished():
                 _drain(sch)
+        if dfs is not None:
+            dfs.observe(sch)
         res = {"outcomes": list(sch.results), "state": im.state(), "locks": {a: b for a, b in fsmon.locked_lists(im.hs, mode).items() if b},
                "steps": sch.steps, "ops": [sch.thread_ops(i) for i in range(sch.n)], "schedule": used, "status": status}
         return res
